@@ -385,3 +385,70 @@ func init() {
 		})
 	}
 }
+
+// checkScalarCompare: the NIST-curve scalar type keeps whatever bytes its decoder was given (values not below
+// the order are accepted - the recorded C09 finding, pinned by the repository's tests). Two consequences are
+// decided here. IsZero must test the value, not the raw field: the encoding of the order is a zero scalar
+// (oprf's zero-blind guard). IsEqual must stay a comparison of the encodings: zk/dleq and oprf compare the
+// recomputed challenge with the decoded one through it, and a value comparison would accept c+N for c.
+func checkScalarCompare(c *Ctx, p *Program, rule string, wantZero, wantEqual bool) {
+	rawArgs := func(f *ssa.Function) (raw, cmps int) {
+		for _, b := range f.Blocks {
+			for _, in := range b.Instrs {
+				ci, ok := in.(ssa.CallInstruction)
+				if !ok {
+					continue
+				}
+				name := p.staticCalleeName(ci.Common())
+				if name != "crypto/subtle.ConstantTimeCompare" && name != "bytes.Equal" {
+					continue
+				}
+				cmps++
+				for _, a := range ci.Common().Args {
+					ld, ok := a.(*ssa.UnOp)
+					if !ok || ld.Op != token.MUL {
+						continue
+					}
+					fa, ok := ld.X.(*ssa.FieldAddr)
+					if ok && fieldName(fa) == "k" && strings.HasSuffix(derefType(fa.X.Type()).String(), "group.wScl") {
+						raw++
+					}
+				}
+			}
+		}
+		return
+	}
+	if wantZero {
+		f := p.Func("group", "wScl", "IsZero")
+		what := "(*group.wScl).IsZero tests the value of the scalar, not its raw encoding"
+		if f == nil {
+			c.undecided(rule, what, "anchor does not resolve", "")
+		} else if raw, _ := rawArgs(f); raw > 0 {
+			c.bad(rule, what, "the raw k field is compared with zero bytes: the scalar decoded from the encoding of the order acts as zero and tests as non-zero", p.fnPos(f))
+		} else {
+			c.ok(rule, what, "no byte comparison of the raw field", p.fnPos(f))
+		}
+	}
+	if wantEqual {
+		f := p.Func("group", "wScl", "IsEqual")
+		what := "(*group.wScl).IsEqual compares the encodings of the two scalars"
+		if f == nil {
+			c.undecided(rule, what, "anchor does not resolve", "")
+		} else if raw, cmps := rawArgs(f); cmps == 1 && raw == 2 {
+			c.ok(rule, what, "one byte comparison of the two raw fields", p.fnPos(f))
+		} else {
+			c.bad(rule, what, fmt.Sprintf("%d byte comparisons with %d raw operands: a comparison of values accepts c+N for a challenge c (the decoder does not reduce), so an altered proof verifies", cmps, raw), p.fnPos(f))
+		}
+	}
+}
+
+func init() {
+	wrapProp("C12", func(c *Ctx, p *Program) {
+		c.Clauses = append(c.Clauses, "C12.scalarcmp: the zero test of the NIST-curve scalars is made on the value modulo the order (the decoder accepts values not below it)")
+		checkScalarCompare(c, p, "C12.scalarcmp", true, false)
+	})
+	wrapProp("C16", func(c *Ctx, p *Program) {
+		c.Clauses = append(c.Clauses, "C16.scalarcmp: the zero-blind guard sees the value of the blind, and the challenge comparison of the DLEQ verifier is a comparison of encodings (a value comparison would accept c+N, which the scalar decoder does not refuse)")
+		checkScalarCompare(c, p, "C16.scalarcmp", true, true)
+	})
+}
